@@ -9,6 +9,10 @@ from . import runlevel
 
 SITE_C = "iteration_history.py:IterationHistory"
 
+# case kinds of corpus/ entries (failing inputs of past regressions) that this module replays on every run
+CORPUS_KINDS = ('noisy_run', 'full_run')
+
+
 
 def container_level(ctx, rep):
     from pybads.utils.iteration_history import IterationHistory
